@@ -405,6 +405,11 @@ class Sim:
         if not isinstance(out, np.ndarray) or out.shape != want_shape:
             self.violate("shape", "evaluate", i, {"got": getattr(out, "shape", None), "want": want_shape})
             return
+        if not np.all(np.isfinite(out)):
+            # finite data have finite costs (the variance floor exists for that); the only
+            # other permitted outcome is the documented error
+            self.violate("non_finite_value", "evaluate", i, {"cuts": cuts.tolist(), "got": np.asarray(out).tolist(), "param": json.dumps(self.param_spec)})
+            return
         self.stats["comparisons"] += 1
         if len(self.answers) > 0 or self.fit_epoch > 1:
             self.nontrivial = True
@@ -480,6 +485,9 @@ def gen_X(rng, nmax, shape=None):
     sc = float(rng.choice([1e-3, 1, 1, 30, 1e3]))
     off = float(rng.choice([0, 0, 5, -200, 1e3]))
     X = rng.normal(size=(n, p)) * sc + off
+    if p > 1 and rng.random() < 0.2:
+        # columns of very different magnitude
+        X = X * np.array([float(rng.choice([1e-3, 1.0, 1e3])) for _ in range(p)])
     if rng.random() < 0.5:
         X = X.round(int(rng.integers(0, 4)))
     if rng.random() < 0.3 and n > 3:
